@@ -1,7 +1,9 @@
 ------------------------------- MODULE T_C01 -------------------------------
 (* C->S judge for C01.  Record: [id, b (input bytes), ok, len, raw, mn, pre, ops] = what miasmX reported  *)
 (* for input b (ok = FALSE: no instruction / exception; then only b matters).  Only strings that both     *)
-(* sides accept as one instruction without superfluous prefixes are compared; the others are counted.     *)
+(* sides accept as one instruction and whose prefixes have a determinate meaning (IA32Decode!Determinate: *)
+(* no superfluous prefix, or only repeated 66/67 and unused 66/67/segment prefixes) are compared; the     *)
+(* others are counted.  sup names the superfluous prefixes of a compared string.                          *)
 EXTENDS IA32Judge, Json, IOUtils
 Recs == JsonDeserialize(IOEnv.TRACE)
 VARIABLES i, cnt
@@ -11,7 +13,7 @@ Next == \/ /\ i < Len(Recs) /\ i' = i + 1
               /\ cnt' = [cnt EXCEPT ![c] = @ + 1]
               /\ IF c = "cmp" THEN
                     LET v == Clauses(r, d) IN
-                    IF v = <<>> THEN TRUE ELSE PrintT("VERDICT " \o ToJson([id |-> r.id, v |-> v, spec |-> d]))
+                    IF v = <<>> THEN TRUE ELSE PrintT("VERDICT " \o ToJson([id |-> r.id, v |-> v, spec |-> d, sup |-> SupKinds(d.pfx, d)]))
                  ELSE TRUE
         \/ /\ i = Len(Recs) /\ i' = i + 1 /\ cnt' = cnt
            /\ PrintT("STATS " \o ToJson(cnt))
